@@ -401,7 +401,7 @@ func (s *State) evalPrintLogError(node *ast.Builtin) object.Object {
 		if i > 0 {
 			buf.WriteString(" ")
 		}
-		r := s.evalInternal(v)
+		r := object.Value(s.evalInternal(v)) // deref a variable of an outer scope.
 		// If what we print/println is an error, return it instead. log can log errors.
 		if r.Type() == object.ERROR && !doLog {
 			return r
@@ -483,6 +483,7 @@ func (s *State) deleteMapEntry(idxE *ast.IndexExpression, index object.Object) o
 		// Nothing to delete, we're done
 		return object.FALSE
 	}
+	obj = object.Value(obj) // deref.
 	// TODO: handle arrays too? though delete arr[idx] == arr[0:idx]+arr[idx+1:] so... no point
 	if obj.Type() != object.MAP {
 		return s.NewError("delete index on non map: " + id + " " + obj.Type().String())
@@ -884,7 +885,7 @@ func (s *State) evalIdentifier(node *ast.Identifier) object.Object {
 }
 
 func (s *State) evalIfExpression(ie *ast.IfExpression) object.Object {
-	condition := s.evalInternal(ie.Condition)
+	condition := object.Value(s.evalInternal(ie.Condition)) // deref a variable of an outer scope.
 	switch condition {
 	case object.TRUE:
 		if log.LogVerbose() {
@@ -1025,12 +1026,12 @@ func (s *State) evalForSpecialForms(fe *ast.ForExpression) (object.Object, bool)
 	}
 	name := ie.Left.Value().Literal()
 	if ie.Right.Value().Type() == token.COLON {
-		start := s.evalInternal(ie.Right.(*ast.InfixExpression).Left)
+		start := object.Value(s.evalInternal(ie.Right.(*ast.InfixExpression).Left))
 		startInt, ok := Int64Value(start)
 		if !ok {
 			return s.NewError("for var = n:m n not an integer: " + start.Inspect()), true
 		}
-		end := s.evalInternal(ie.Right.(*ast.InfixExpression).Right)
+		end := object.Value(s.evalInternal(ie.Right.(*ast.InfixExpression).Right))
 		endInt, ok := Int64Value(end)
 		if !ok {
 			return s.NewError("for var = n:m m not an integer: " + end.Inspect()), true
@@ -1039,6 +1040,9 @@ func (s *State) evalForSpecialForms(fe *ast.ForExpression) (object.Object, bool)
 	}
 	// Evaluate:
 	v := s.evalInternal(ie.Right)
+	if v.Type() == object.REFERENCE {
+		v = object.Value(v) // variable of an outer scope.
+	}
 	switch v.Type() {
 	case object.REGISTER:
 		return s.evalForInteger(fe, nil, v.(*object.Register).Int64(), name), true
@@ -1096,7 +1100,7 @@ func (s *State) evalForExpression(fe *ast.ForExpression) object.Object {
 	var lastEval object.Object
 	lastEval = object.NULL
 	for {
-		condition := s.evalInternal(fe.Condition)
+		condition := object.Value(s.evalInternal(fe.Condition)) // deref a variable of an outer scope.
 		switch condition {
 		case object.TRUE:
 			if log.LogVerbose() {
